@@ -292,7 +292,7 @@ class C06Pinning:
         c = get_ctx(sim)
         if c.terminal_psi is None or len(c.term_sites) == 0:
             return []
-        if rec["step"] == 0 and sim.scn.get("seed_solution_obj") is not None:
+        if rec["step"] == 0 and sim.seed_solution is not None:
             return []
         psi = np.asarray(rec["data"]["psi"])[c.term_sites]
         tp = c.terminal_psi
@@ -543,7 +543,7 @@ class C13Screening:
         V = []
         if not o.get("include_screening"):
             A = np.asarray(cur["out"]["induced_vector_potential"])
-            seeded = sim.scn.get("seed_solution_obj") is not None
+            seeded = sim.seed_solution is not None
             if np.any(A != 0) and not seeded:
                 V.append(Violation("induced-nonzero", f"step {cur['step']}: screening disabled but the induced vector potential is non-zero (max {np.max(np.abs(A)):.3g})", step=cur["step"]))
             return V
